@@ -900,6 +900,9 @@ impl TieredEngine {
     /// - L1b (query cache) entries referencing the document are removed via reverse index lookup
     ///   (`doc_id -> cached query keys`) to avoid full-cache scans on deletes.
     pub fn delete(&self, doc_id: u64) -> Result<bool> {
+        // A drain in flight holds copies of mirror entries it already removed from the hot
+        // tier; deleting in that window would let its repair path resurrect the document.
+        let _delete_guard = self.hot_tier.delete_guard();
         let cold_deleted = self.cold_tier.delete(doc_id)?;
         let hot_deleted = self.hot_tier.delete(doc_id);
 
@@ -1037,6 +1040,7 @@ impl TieredEngine {
 
     /// Batch delete documents by ID
     pub fn batch_delete(&self, doc_ids: &[u64]) -> Result<u64> {
+        let _delete_guard = self.hot_tier.delete_guard();
         let mut unique_doc_ids: Vec<u64> = doc_ids.to_vec();
         unique_doc_ids.sort_unstable();
         unique_doc_ids.dedup();
@@ -2222,6 +2226,7 @@ impl TieredEngine {
     /// Used when hot tier reaches hard limit to prevent OOM.
     /// Unlike normal flush, this ignores the needs_flush() check.
     fn emergency_flush_hot_tier(&self) -> Result<usize> {
+        let _drain_guard = self.hot_tier.drain_guard();
         let documents = self.hot_tier.drain_for_flush();
         let count = documents.len();
 
@@ -2434,6 +2439,7 @@ impl TieredEngine {
             return Ok(0);
         }
 
+        let _drain_guard = self.hot_tier.drain_guard();
         let documents = self.hot_tier.drain_for_flush();
         let count = documents.len();
 
